@@ -131,6 +131,12 @@ func (ep *endpoint) PostData(req *types.PushSubscribeReq, data []byte, updateSeq
 		ep.mu.Unlock()
 		return errors.New("unknown subscriber")
 	}
+	if ep.viol != nil {
+		// the verdict is in; do not let a misbehaving push task spin at one virtual instant
+		ep.mu.Unlock()
+		time.Sleep(time.Second)
+		return errors.New("endpoint stopped after a violation")
+	}
 	// decode the sequence numbers carried by the payload
 	var nums []int64
 	exact := true // block / header payloads carry every sequence
